@@ -21,6 +21,9 @@ def scenarios(tier):
   add('1item-prefetch1-batch1', items=1, prefetch=1, batch=1, depths=(40, 50, 60, 70))
   add('fail-2items-prefetch2-batch2', items=2, prefetch=2, batch=2, fail=(0, 255), depths=(50, 60, 70, 80, 90))
   add('fail-1item-prefetch1-batch1', items=1, prefetch=1, batch=1, fail=(0, 255), depths=(40, 50, 60, 70))
+  if tier == 'quick':
+    # three threads, depth-bounded (the thorough tier exhausts it): a stop request racing with a request in flight
+    add('shutdown-2items-prefetch1-batch2-hunt', items=2, prefetch=1, batch=2, stopper='stop', hunt=True, depths=(20, 30, 40))
   if tier == 'thorough':
     add('fail-2items-prefetch1-batch1', items=2, prefetch=1, batch=1, fail=(0, 255), depths=(70, 80, 90, 100))
     add('2items-prefetch1-batch1', items=2, prefetch=1, batch=1, depths=(70, 80, 90, 100))
